@@ -12,560 +12,527 @@ Definition show_fres (r : fres) : string :=
   end.
 Definition check (rs : list rune) : string := digest (show_fres (format_res rs)).
 Definition full (rs : list rune) : string := show_fres (format_res rs).
-Eval vm_compute in ("<<<M1867>>>" ++ check (runes_of_ascii "  options{
-    BodyLength
-    =	char[7
-    ]
-
-    ;
-
-    } 
-  // c
-		// @lengthOf(
-    	packet asx	// " ++ [128512]%N ++ runes_of_ascii " emoji
-  	{ int16
-x_y_z ,
-@calculatedFrom( """"
-	)
-@lengthOf( 
-	    /// triple
-
-chars)	//
-repeat 
-repeatCount 
-charz 
-/// triple
-	// " ++ [27880; 37322]%N ++ runes_of_ascii "
-    	,@leftPad (
-
-    )
-
-    i64_@calculatedFrom( 
-""\" ++ [233]%N ++ runes_of_ascii """ ) 
-`// not a comment`, tag
-    Z9_
-`two words`
-
-    ,
-
-@lengthOf(
-
-    asx ) @calculatedFrom(
-""`tick`""
-)
-	match uint8x as matchKey { 0123456789
-	// packet A { u8 x, }
-  // a // b
-  :u8x
-	, 1
-
-    :zchar
-
+Eval vm_compute in ("<<<M146>>>" ++ check (runes_of_ascii "MetaData
+chars {	int8 Z9_,	float rootA	`tab	here`// @lengthOf(
 ,
-	},
-u128
-@lengthOf( 
-u128// packet A { u8 x, }
-      )// " ++ [128512]%N ++ runes_of_ascii " emoji
-
-,
-    }
-	MetaData	msg_type{string	BodyLength
-`two words` ,
-options1// " ++ [128512]%N ++ runes_of_ascii " emoji
-	  i64_  ,
-
-} 	 // " ++ [128512]%N ++ runes_of_ascii " emoji
-    	packet roots
-
-{u
-``
-
-,
-@calculatedFrom(
-""a	b""
-	) match len
-    as
-
-    msg_type{ 
-// c
-  """ ++ [28040; 24687]%N ++ runes_of_ascii """
-
-    :
-    charz 
-}  ,
-crc	@calculatedFrom(
-    // packet A { u8 x, }
-	  // packet A { u8 x, }
-	""it's"" )
-
-    `a\` ,
-@leftPad
-
-    (
-
-    '0'	)@tag( 007
-)
-
-zchar[  // trailing space 
-  3 
-    // trailing space 
-
-	]falsey  ,	@calculatedFrom(  // `tick` ""quote"" 'q'
-    	""\n"" 
-) @calculatedFrom(
-""CRC32""  // c
-	)  
-  // trailing space 
-match 
 //x
-
-	Packet
-
-as // @lengthOf(
-  stringy {1:Pad 
-,	""it's""
-
-    : 
-f32a
-
-    ,
-    }  ,
-
-    @leftPad
-(' '
-
-)match// " ++ [27880; 37322]%N ++ runes_of_ascii "
-  int as
-a1
-{ 
-[ 0123456789
-
-,
-255]: options1
-	    //x
-    //x
-	}
-,
-    BodyLength
-
-    //
-
-	@calculatedFrom(
-    """ ++ [28040; 24687]%N ++ runes_of_ascii """  ) ,  float32 zchar	@calculatedFrom(
-""// no comment""  )
-
-,	@tag( 
-10 
-)
-
-zchar[  
-  // packet A { u8 x, }
-	1  ]rootA 
-,
-
-    }
-
-")).
-Eval vm_compute in ("<<<M1708>>>" ++ check (runes_of_ascii "  root
-    packet  // @lengthOf(
-	repeatCount {
-	@lengthOf( u8x 
-)
-	@calculatedFrom(  ""1""
-	)
-
-@tag(  007
-
-)
-repeat
-	zchar[42
-	]  Header `" ++ [28040; 24687; 31867; 22411]%N ++ runes_of_ascii "` ,
-	match options1	as asx  {
-255  
-      // `tick` ""quote"" 'q'
-
-  :
-    roots 
-,  }
-	,  // a // b
-	Header
-@lengthOf(
-// a // b
-options1)
-
-``
-
-, Header 	 //	t
-    	@lengthOf(	len 
-) 
-`{ , }` ,
-o 
-matchKey `u8 x,`	,  }
-
-packet packetx	{
-	zchar[
-
-    255]crc
-	,	}packet 
-Logon
-    {  body
-    { 
+// @lengthOf(
+T o `it's` ,
+roots int , // c
+repeatCount MetaDataX, float32
+    falsey `say ""hi""`,} packet
+    msg_type
+{ repeat f32
+o // `tick` ""quote"" 'q'
+, @tag( 0
+)char[]  A	,  repeat char[] tag `say ""hi""` ,repeat char[ 0 ] Z9_ ,
+zchar[ 1 ] lengthOf ,
+i64 T , match float as
+leftPad {
+    007 : len /// triple
+, ""it's"" : len
+    , ""it's"" : // @lengthOf(
 float
-	{  repeat 
-Logon
-
-    trueish
+    [ 255 ,
+00
+, ""abc"", ""abc""
 ,
+1
+, """ ++ [28040; 24687]%N ++ runes_of_ascii """ // `tick` ""quote"" 'q'
+, ""x y"" , """" // a // b
+] :	_x ,
+    """" : len ,""\" ++ [233]%N ++ runes_of_ascii """  : // a // b
+i64_
+, //	t
+}, roots{ char[ 1
+]// @lengthOf(
+Header
+@lengthOf( x_y_z )
+    , body u128 , // `tick` ""quote"" 'q'
+char[]
+float ,chars@lengthOf( x  )
+    `doc` ,}
+,
+    crc `it's`
+    // `tick` ""quote"" 'q'
+    , @calculatedFrom(""" ++ [128512]%N ++ runes_of_ascii """
+    )
+    BodyLength `" ++ [28040; 24687; 31867; 22411]%N ++ runes_of_ascii "` , }
+    packet
+    u128{  lengthOf ,pack
+@lengthOf( u8x// c
+)`// not a comment`// " ++ [27880; 37322]%N ++ runes_of_ascii "
+,@leftPad
+    (
+' ' ) float{match
+    asx as
+    charz
+{ [ 4294967296,""""
+, 255 ,42
+    ,""1""  ] : u8x ""{,}""	: Foo 42  :
+leftPad[ // trailing space 
+255 ,
+    // " ++ [128512]%N ++ runes_of_ascii " emoji
+    ""a\""b"" , ""it's""  , 4294967296 ] : stringy , 3
+:Header ,
+} ,match o // `tick` ""quote"" 'q'
+as
+    Pad
+    // trailing space 
+    { 3 :
+    i64_//x
+, } ,repeat
+    string msg_type ,
+    match
+packetx // " ++ [27880; 37322]%N ++ runes_of_ascii "
+as
+lengthOf
+    { [ ""x y"","""" ]
+:x_y_z
+// " ++ [27880; 37322]%N ++ runes_of_ascii "
+// c
+}, } ,i64 float,repeat
+    zchar[ 3  ] rootA
+    `crlf
+line`, match msg_type as len{
+""CRC32"":
+MetaDataX
+,
+} ,
+    f32
+A , char[
+0123456789 ] chars// " ++ [27880; 37322]%N ++ runes_of_ascii "
+`{ , }` , /// triple
+@calculatedFrom( ""a\""b""
+) string
+string_
+    `" ++ [233]%N ++ runes_of_ascii "` ,}
+")).
+Eval vm_compute in ("<<<M1866>>>" ++ check (runes_of_ascii "options {
+    BodyLength = 3;// " ++ [128512]%N ++ runes_of_ascii " emoji
+    T = ""packet"";
+    // c
+    // trailing space 
+    crc = true;
+    falsey = '\x00';
+}
 
-} ,}  ,
-	@calculatedFrom( 
-  // `tick` ""quote"" 'q'
-  	""`tick`"" )
-repeat	char[
-0	]
+root packet A {
+    @leftPad('0')
+    char[65535] Header `" ++ [233]%N ++ runes_of_ascii "`,
+    @rightPad('0')
+    //
+    a1 @lengthOf(msg_type),
+    @lengthOf(rootA)
+    match _x as stringy {
+        ""CRC32"" : chars,
+        3 : float,
+        255 : asx,
+        10 : tag,
+        //
+    },
+    @calculatedFrom(""" ++ [128512]%N ++ runes_of_ascii """)
+    u32 u8x `crlf
+        line`,
+    repeat char[] asx `a\`,
+    @rightPad('0')
+    match f32a as Packet {
+        [
+            255, ""CRC32"", 007, ""1"", ""packet"",
+            00, 4294967296
+        ] : calculatedFrom,
+        ""packet"" : falsey,
+        ""a\""b"" : body,
+        7 : Packet,
+        // " ++ [128512]%N ++ runes_of_ascii " emoji
+        0123456789 : i64_,
+        // a // b
+        [4294967296, 0123456789] : options1,
+    },
+    crc @lengthOf(Foo),
+    @calculatedFrom(""{,}"")
+    @lengthOf(metadata)
+    @lengthOf(i8i8)
+    int64 options1 @calculatedFrom(""CRC32"") `line1
+        line2`,// @lengthOf(
+}
 
-    f32a 
+packet a1 {
+    match lengthOf as x_y_z {
+        ""it's"" : matchKey,
+        10 : Packet,
+        [""abc""] : A,
+        10 : metadata,
+    },
+}
+
+MetaData body {
+    char string_,
+    char[] x,
+    len Pad,
+    string leftPad,
+}// trailing space ")).
+Eval vm_compute in ("<<<M1609>>>" ++ check (runes_of_ascii "
+
+  root packet i64_
+{ trueish
+
+    ,
+	@calculatedFrom( ""abc"" )  @tag(
+	7
+    ) 
+    // c
+int16 asx ,
+	@calculatedFrom(
+""a\\"" )float32
+crc
+
+    @lengthOf(	Foo  )
+    ,@tag(  // `tick` ""quote"" 'q'
+	  42// c
+  ) zchar[ 
+    // c
+	// packet A { u8 x, }
+    	7 ]  asx@lengthOf( calculatedFrom 
+)	`// not a comment`
+	,	//
+
+	repeat  zchar[
+
+    1 ]  // a // b
+  As 
 , 
-match
-	body
-    as
-float{
-    [
+chars
 
-65535
-,
-    """ ++ [28040; 24687]%N ++ runes_of_ascii """]
-    :calculatedFrom,
-	},
-u32 float @calculatedFrom(
+    `two words`
 
-""" ++ [233]%N ++ runes_of_ascii "t" ++ [233]%N ++ runes_of_ascii """// @lengthOf(
+    ,
+@calculatedFrom(
+""1""
+    )  @tag(
+	// `tick` ""quote"" 'q'
+  0123456789
 )
 
-,	string
+    @leftPad 
+('0'
+)repeat char[] BodyLength  `tab	here`
+    , }
+MetaData  u128 	 // packet A { u8 x, }
+	{
+	u16 
+i64_ , float32
+asx //
+	`two words`, 	 //
+	i64
 
-    body
-@lengthOf(len
+    leftPad	,
 
-) `
-`//
-, u8x@calculatedFrom( 
-""a\""b""	)
-//	t
-	  ,  //	t
-    float64
-    options1 @calculatedFrom(	""" ++ [128512]%N ++ runes_of_ascii """)
-	`it's`
-,  
-      //x
-  // trailing space 
+    zchar[  00// `tick` ""quote"" 'q'
+  ]
+_x
+, //
 
-match 
-crc as
+}
+	MetaData chars 
+        //
 
-chars  {
+{
+	Foo crc
+	`say ""hi""`
 
-    3 :
-options1 // @lengthOf(
-    ,
-    [ 10
-    ] :	_x
+, uint8
+    u`two words`
 
-    [""{,}"" 
-]
-	:options1,
-[
+    , 	 // " ++ [128512]%N ++ runes_of_ascii " emoji
+f32
+pack	`crlf
+line`
 
-    ""CRC32""	,
-""a\\""
-, ""a\\""
-, 
-""packet""
+,
+	string _x
+`" ++ [233]%N ++ runes_of_ascii "`
+	, }
+packet
 
-    ,  7
+    x_y_z { }	options{	calculatedFrom
+=
+	""CRC32""
+    crc
+=	uint16
+    ;
+	u
 
-// `tick` ""quote"" 'q'
-	]	:As
+=
+false  Foo
 
-} 
-, 
-i16	msg_type ,
-
-    }
-
+=
+char 
+}  // " ++ [128512]%N ++ runes_of_ascii " emoji
 ")).
-Eval vm_compute in ("<<<M1398>>>" ++ check (runes_of_ascii "packet T {
-    match repeatCount as Packet {
-        ""packet"" : msg_type,
-        00 : Foo,
-        """ ++ [128512]%N ++ runes_of_ascii """ : trueish,
-        """" : repeatCount,
-        [4294967296, 65535] : u,
-    },
-    @calculatedFrom(""a\\"")
-    float32 len @lengthOf(string_),
-    stringy Pad,
-    roots {
-        repeat x_y_z `// not a comment`,
-        T `" ++ [233]%N ++ runes_of_ascii "`,
-    },
-    @tag(007)
-    _x {
-        // " ++ [128512]%N ++ runes_of_ascii " emoji
-        char[] body @calculatedFrom(""" ++ [233]%N ++ runes_of_ascii "t" ++ [233]%N ++ runes_of_ascii """),
-        repeat Pad ``,
-    },
-    match u as packetx {
-        // `tick` ""quote"" 'q'
-        [007, ""// no comment""] : T,
-        [""\" ++ [233]%N ++ runes_of_ascii """] : u8x,
-    },
-    @rightPad()
-    int8 _x,
+Eval vm_compute in ("<<<M1739>>>" ++ check (runes_of_ascii "
+options
+	{ FixedStringPadFromLeft = true ;
+
+    FixedStringPadChar  = 
+'0';}
+packet Leg 
+{
+	InPrice0{repeat
+	string	clOrdID 
+, 
+int16
+    msgKind
+
+, 
+zchar[5] Px, } ,i16
+
+f1  ,  repeat
+
+    f64	Side2
+,
+string
+Acct
+    ,
+}  packet
+Cancel
+{
+
+    zchar[4] clOrdID, 
+string
+    seqNo  ,Leg,
+
+@leftPad	(
+'0') char[
+11 
+] OrderId ,  }  packet
+Quote  {
+    repeat
+    char[
+
+4]	sym, 
+f64
+
+OrderId
+
+,repeat
+Leg
+    ,
+repeat i64
+
+f1  , 
+int16
+	Note
+    ,
+
+zchar[ 
+3
+]	count, } root packet
+    Ack
+	{
+@leftPad
+( ' '  )
+char[
+    10
+] sym  ,  InPx60 { 
+Cancel 
+,
+
+    repeat  char[ 1 ]	f1
+,
+string Tail
+
+    ,
+
+repeat InNote55 { int8
+	count , f64
+	f1
+,  repeat
+
+    Cancel	,
+}
+
+    , 
+char[] 
+tag7 ,
+repeat  string  msgKind, }
+	,u8
+	lastPx
+,
+	match lastPx  as Body{
+
+152: Quote,
+	173
+: Cancel,
+4
+	:
+
+    Leg
+
+,
+
+} , u16  Ref
+@calculatedFrom(	""CRC32""
+)
+
+,
+}
+")).
+Eval vm_compute in ("<<<M1448>>>" ++ check (runes_of_ascii "packet leftPad {
+    //
+    i8 stringy @calculatedFrom(""" ++ [128512]%N ++ runes_of_ascii """),
+    int @calculatedFrom(""a	b"") `it's`,
+    @leftPad()
+    @tag(0123456789)
+    int32 u8x,
     @lengthOf(A)
-    match crc as metadata {
-        [00, 3, 1, 10, ""a\""b""] : Packet,
-        //	t
-        [4294967296, ""abc"", """"] : a1,
-        """ ++ [28040; 24687]%N ++ runes_of_ascii """ : repeatCount,
-    },
+    float64 u128 @calculatedFrom(""a\\""),//x
 }
 
 options {
-}
-
-MetaData Header {
-    trueish Pad,
-}
-
-MetaData Z9_ {
-    char[] metadata,
-    Header A `doc`,
-    uint32 packetx,
-    int16 uint8x,
-    Header leftPad,
-}")).
-Eval vm_compute in ("<<<M1341>>>" ++ check (runes_of_ascii "options {
-    StringPrefixLenType = u64;
-    ArrayPrefixLenType = u32;
-    FixedStringPadFromLeft = false;
-}
-packet Party {
-    zchar[7] OrderId,
-    InTail6 {
-        repeat char[1] msgKind,
-        char[3] Tail,
-        char[3] Flags,
-        i16 tag7,
-    },
-    @rightPad('0') char[12] clOrdID,
-}
-packet Quote {
-    @leftPad('0') char[11] price,
-    repeat InCount7 {
-        i32 x,
-        Party,
-        u8 Ref,
-        u8 tag7,
-    },
-    char[] seqNo,
-    Party,
-}
-packet Logon {
-    @rightPad('\x00') char[5] Note,
-    i16 sym,
-    InPrice72 {
-        char[9] Ref,
-        zchar[1] venue,
-    },
-    char[] clOrdID,
-}
-root packet Reject {
-    repeat Logon,
-    @leftPad(' ') char[4] seqNo,
-    zchar[5] Acct,
-    u32 x,
-    u16 f1 @lengthOf(Body),
-    match x as Body {
-        [169, 74] : Quote,
-        45 : Party,
-        7 : Logon,
-    },
-}
-")).
-Eval vm_compute in ("<<<M330>>>" ++ check (runes_of_ascii "root packet
-As {
-} MetaData Pad { string
-    metadata  `// not a comment` ,
-    }
-packet metadata
-    { string	charz
-`a\` , @leftPad ( ' ' )pack@lengthOf(x_y_z ), @calculatedFrom( ""packet"")
-match crc
-    as chars { [ ""packet"" ,7 ]
-    :  repeatCount }
-, Pad @lengthOf( matchKey
-    ),
-@calculatedFrom( ""\n""
-    )int64
-    Z9_ @lengthOf(
-    // a // b
-    _x ),
-@lengthOf(repeatCount// trailing space 
-) repeat float
-{ u128 @lengthOf( zchar) , u8 crc
-, } ,
-    int64 pack, u128
-    `it's` , repeat
-// a // b
-// `tick` ""quote"" 'q'
-i32 T , //	t
-@tag(00 ) rootA  @lengthOf(
-float
-    )
-,
-} MetaData Header // @lengthOf(
-{u32 u,	string A `crlf
-line` ,
-u16
-    roots `a\` ,int16 chars , }
-packet repeatCount { repeat char[
-// trailing space 
-//x
-65535]
-    x `line1
-line2`
-, }")).
-Eval vm_compute in ("<<<M219>>>" ++ check (runes_of_ascii "
-packet
-falsey{ // `tick` ""quote"" 'q'
-repeat charz
-    /// triple
-    float // a // b
-`tab	here`
-    ,
-char[]stringy  , Logon
-    f32a,
-    char[] string_/// triple
-,
-int16
-_x
-`` ,
-    match/// triple
-crc as stringy { ""abc"" :Pad
-    [ ""\n"" , 10, 4294967296, 0123456789 , ""abc"" ,	""" ++ [28040; 24687]%N ++ runes_of_ascii """
-    ] :
-i8i8 , 10 :
     //x
-    Header , 10:// c
-calculatedFrom
-    , 0123456789: charz
-10
-    :
-    repeatCount} ,
-    leftPad @lengthOf(
-u8x )  , @lengthOf(a1) repeat x body ,
-} MetaData
-string_
-{ float64  f32a	, zchar[
-255] T, u32 trueish, BodyLength roots
-`two words` , }
-// " ++ [128512]%N ++ runes_of_ascii " emoji
-//	t
-packet stringy{ zchar[
-    255
-    ]Foo ,
+    Pad = 0
+    u = ' '
 }
-MetaData
-leftPad {
-    } //
-options { x //x
-=
-true
-    ;
-zchar = """" } //")).
-Eval vm_compute in ("<<<M1238>>>" ++ check (runes_of_ascii "// top
-options
-    // c0
+
+MetaData a1 {
+    char[] metadata `// not a comment`,
+}
+
+packet Foo {
+    @tag(42)
+    repeat BodyLength,
+    int8 metadata `{ , }`,
+    @leftPad()
+    // " ++ [27880; 37322]%N ++ runes_of_ascii "
+    @calculatedFrom(""`tick`"")
+    @calculatedFrom(""a	b"")
+    u32 stringy,
+    @lengthOf(roots)
+    zchar[0] msg_type @lengthOf(i64_) `tab	here`,
+    i8 Header `{ , }`,
+    char[7] trueish @lengthOf(packetx),
+    u64 charz `
+        `,
+    zchar[65535] repeatCount `it's`,
+    match calculatedFrom as calculatedFrom {
+        ""a	b"" : roots,
+        42 : MetaDataX,
+    },
+}")).
+Eval vm_compute in ("<<<M1407>>>" ++ check (runes_of_ascii "
+packet	// packet A { u8 x, }
+	u8x
+
 {
-    // c1
-zchar
-    // c2
-=
-    // c3
-true
-    // c4
-;
-    // c5
-Pad
-    // c6
-=
-    // c7
+
+}  root packet 
+matchKey
+    {
+
+repeat
+zchar[	0123456789]  // packet A { u8 x, }
+	int
+    ,
+
 char[
-    // c8
-00
-    // c9
+	// `tick` ""quote"" 'q'
+  // a // b
+	4294967296
 ]
-    // c10
-a1
-    // c11
-=
-    // c12
-uint32
-    // c13
-BodyLength
-    // c14
-=
-    // c15
-true
-    // c16
-;
-    // c17
+    asx`{ , }` , 
+repeat
+    i8i8 
+,repeat
+
+    Packet
+	{	repeat	leftPad {f32
+    u128@lengthOf(
+    As ),
+body
+`two words`, // packet A { u8 x, }
+rootA
+
+    Pad ,
+}  ,
+char[
+    00
+] msg_type 
+`tab	here` // " ++ [128512]%N ++ runes_of_ascii " emoji
+  	,
+repeat
+//x
+  	i64_
+    `doc`
+    ,
+zchar x_y_z,}  ,
+
+    } 
+root 
+packet int{ repeat
+    f32a {repeat	f32a
+
+    asx
+
+    `u8 x,`
+	, } ,
+	@lengthOf(
+	// @lengthOf(
+
+  //	t
+
+msg_type // packet A { u8 x, }
+      )
+body
+    , 
+      // c
+//
+
+Z9_ // c
+    zchar	`a\`//x
+  , }  //x
+")).
+Eval vm_compute in ("<<<M164>>>" ++ check (runes_of_ascii "//x
+packet x { @lengthOf(
+string_ )
+// `tick` ""quote"" 'q'
+// trailing space 
+msg_type{
+int // a // b
+@lengthOf( chars
+    )
+//x
+// " ++ [27880; 37322]%N ++ runes_of_ascii "
+`" ++ [28040; 24687; 31867; 22411]%N ++ runes_of_ascii "` , int`a\`  , }
+    ,uint32 chars  @calculatedFrom(
+""`tick`""
+    )
+    `
+` , @lengthOf( packetx // trailing space 
+)
+match
+    metadata as x_y_z
+{ 65535	: x ,007
+// `tick` ""quote"" 'q'
+// " ++ [128512]%N ++ runes_of_ascii " emoji
+: u [ 7 ,
+""// no comment""	,  """ ++ [28040; 24687]%N ++ runes_of_ascii """] :x ""a\\""
+: MetaDataX,0123456789 : lengthOf
+10 :
+//
+// `tick` ""quote"" 'q'
+float  }
+    ,
+    u16 Logon@calculatedFrom(""x y"") `tab	here`
+//	t
+//
+,@lengthOf(Foo ) zchar /// triple
+, }  packet
+    tag { } root packet
+x_y_z{ } MetaData int {
+    string
+A `" ++ [233]%N ++ runes_of_ascii "` ,
 }
-    // c18
-root
-    // c19
-packet
-    // c20
-T
-    // c21
-{
-    // c22
-@lengthOf(
-    // c23
-repeatCount
-    // c24
-)
-    // c25
-@tag(
-    // c26
-1
-    // c27
-)
-    // c28
-@calculatedFrom(
-    // c29
-""a	b""
-    // c30
-)
-    // c31
-string
-    // c32
-stringy
-    // c33
-@calculatedFrom(
-    // c34
-""\n""
-    // c35
-)
-    // c36
-`u8 x,`
-    // c37
-,
-    // c38
-}
-    // c39
 ")).
 Eval vm_compute in ("<<<M1239>>>" ++ check (runes_of_ascii "// top
 options // c0
@@ -617,287 +584,331 @@ stringy @calculatedFrom( ""\n"" ) // c36
 , // c38
 } // c39
 ")).
-Eval vm_compute in ("<<<M1115>>>" ++ check (runes_of_ascii "packet float
-    // c1
-{ // c2
-@rightPad // c3a
-  // c3b
-( // c4a
-  // c4b
-) // c5a
-  // c5b
-rootA // c6
-@lengthOf( // c7a
-  // c7b
-trueish // c8
-)
-    // c9
-,
-    // c10
-stringy // c11a
-  // c11b
-@lengthOf( // c12a
-  // c12b
-matchKey )
-    // c14
-, // c15a
-  // c15b
-char[ 4294967296 ]
-    // c18
-pack @lengthOf(
-    // c20
-uint8x
-    // c21
-) // c22a
-  // c22b
-,
-    // c23
-} // c24
-root // c25
-packet trueish {
-    // c28
-repeat uint64
-    // c30
-u128
-    // c31
-`line1
-line2` // c32
-,
-    // c33
+Eval vm_compute in ("<<<M1348>>>" ++ check (runes_of_ascii "  options
+{ ArrayPrefixLenType = u64
+    ; FixedStringPadFromLeft = true
+    ;
+
+    FixedStringPadChar 
+=	'0'
+	;
 }
-    // c34
-")).
-Eval vm_compute in ("<<<M291>>>" ++ check (runes_of_ascii "root
-// " ++ [27880; 37322]%N ++ runes_of_ascii "
-// @lengthOf(
+packet Quote
+    {}
+
 packet
-    Packet
-{ string o @calculatedFrom( ""\" ++ [233]%N ++ runes_of_ascii """)
-, @lengthOf( Packet
-    // packet A { u8 x, }
-    ) body @calculatedFrom( // @lengthOf(
-""x y"" )
-`it's` ,
-float64 As @calculatedFrom( ""`tick`""	), char[]	stringy  @calculatedFrom(""" ++ [28040; 24687]%N ++ runes_of_ascii """	) `doc` , @calculatedFrom(""a	b"") match
-float as o{ [ """ ++ [128512]%N ++ runes_of_ascii """
-    ,007]
-    :metadata
-,
-} ,f32a a1 `a\` , }
-MetaData
-repeatCount
-    { packetx i64_ `" ++ [28040; 24687; 31867; 22411]%N ++ runes_of_ascii "` , // " ++ [128512]%N ++ runes_of_ascii " emoji
-zchar[
-3
-] tag ,
-i8i8 int , }
-")).
-Eval vm_compute in ("<<<M256>>>" ++ check (runes_of_ascii "
-options // " ++ [27880; 37322]%N ++ runes_of_ascii "
-{ T = zchar[ 42
-] options1 = uint8 ;
-lengthOf
-=
-    // a // b
-    char[4294967296
-    ]
-    ; } packet Z9_ { repeat
-MetaDataX
-`crlf
-line`
-    ,
-repeat string x_y_z	,
-    u32 x
-, // `tick` ""quote"" 'q'
-@tag(
-// " ++ [128512]%N ++ runes_of_ascii " emoji
-// " ++ [128512]%N ++ runes_of_ascii " emoji
-00 )repeat i64 Logon ,
-u8x
-f32a, repeat
-    lengthOf``, repeat
-stringy Pad
-    // @lengthOf(
-    `
-`,
-    repeat
-    string_ chars `// not a comment` , }
+Ack	{ repeat
+	InNote66
+    {
+u8
+pad0 ,}
+, }packet
+    Reject
 
-")).
-Eval vm_compute in ("<<<M74>>>" ++ check (runes_of_ascii "options{ u = 7
-    // " ++ [27880; 37322]%N ++ runes_of_ascii "
-    roots
-=zchar[
-65535
-    ]
-msg_type = """ ++ [233]%N ++ runes_of_ascii "t" ++ [233]%N ++ runes_of_ascii """
-; x =false
-    } MetaData string_ { char[ // trailing space 
-42
-//x
+    {
+	}
+
+    root packet
+    Order
+	{	Quote
+
+, repeat	Reject ,
+
+string
+
+venue,
+string
+seqNo,uint32	Ref
+	, 
+u16
+lastPx
+, 
+u32 clOrdID
+@lengthOf(Body)
+
+,
+
+    match 
+lastPx as
+
+    Body { 
+190 
+:
+Reject ,
+    186
+
+: Quote,  22:
+Ack
+
+,
+    }
+,u16  Flags @calculatedFrom(  ""CRC32""
+
+    ),	}")).
+Eval vm_compute in ("<<<M33>>>" ++ check (runes_of_ascii "packet
+int {zchar[ 007 ] metadata ,i16	matchKey,
+@rightPad('0')
+@lengthOf(
+    metadata) repeat zchar[
+    10 ]
+//
 // " ++ [128512]%N ++ runes_of_ascii " emoji
-]
-i8i8 `" ++ [28040; 24687; 31867; 22411]%N ++ runes_of_ascii "`	, u8
-    x_y_z
-, packetx lengthOf``
-    // " ++ [27880; 37322]%N ++ runes_of_ascii "
-    ,
-T Header `line1
-line2` ,
-char[] // " ++ [27880; 37322]%N ++ runes_of_ascii "
-u8x `two words` ,}packet
-float //x
+charz
+    // trailing space 
+    ,	} packet int { @tag( 65535 )
+u32 x @calculatedFrom(
+    ""x y""// " ++ [27880; 37322]%N ++ runes_of_ascii "
+),match pack as MetaDataX
 {
-    calculatedFrom
-    ,
-@rightPad ( '0'
-) char[
-    3
-] u128 , } 	 ")).
-Eval vm_compute in ("<<<M100>>>" ++ check (runes_of_ascii "
-root packet
-a1
-    {
-tag Pad``
-, } options {
-}
-    root packet int	{
-    uint64 f32a , } packet
-MetaDataX {// c
-@leftPad( ' ' ) /// triple
-repeat uint16 Header	`{ , }`
-,
-// `tick` ""quote"" 'q'
-/// triple
-}
-options {
-Z9_= false
-    falsey //	t
-= ""x y"" ; rootA = false
-    // a // b
-    Foo	=true
-lengthOf
-    = float64 }")).
-Eval vm_compute in ("<<<M1767>>>" ++ check (runes_of_ascii "// top
-packet A {
+    [	""abc"" ,
+    // " ++ [27880; 37322]%N ++ runes_of_ascii "
+    0123456789 , ""`tick`"" ] :
+body}	, @lengthOf( zchar ) match leftPad as u8x{
+    10:  u8x ,
+[
+007
+    // " ++ [128512]%N ++ runes_of_ascii " emoji
+    , 255
+    ]
+    :
+    chars	"""" :
+    body ,42 : trueish , }, }")).
+Eval vm_compute in ("<<<M1140>>>" ++ check (runes_of_ascii "// top
+MetaData
+    // c0
+leftPad // c1
+{
     // c2
-    u8 a,
-}// c6a
-
-// c6b
-packet B {
-    u16 b,
-}
-
-// c13
-root packet P {
-    // c17a
-    // c17b
-    u8 K1,// c20
-    u8 K2,// c23a
-    // c23b
-    match K1 as M1 {
-        // c28a
-        // c28b
-        1 : A,
-    },
-    match K2 as M2 {
-        1 : B,
-    },
-}// c46")).
-Eval vm_compute in ("<<<M1847>>>" ++ check (runes_of_ascii "// top
-packet float {
-    @rightPad()
-    // c5
-    rootA @lengthOf(trueish),
+chars // c3a
+  // c3b
+MetaDataX // c4
+, // c5a
+  // c5b
+} packet // c7a
+  // c7b
+repeatCount // c8
+{ char[
     // c10
-    stringy @lengthOf(matchKey),
-    // c15
-    char[4294967296] pack @lengthOf(uint8x),
-}
-
-// c24
-root packet trueish {
-    // c28
-    repeat uint64 u128 `line1
-    line2`,
-}")).
-Eval vm_compute in ("<<<M190>>>" ++ check (runes_of_ascii "packet // @lengthOf(
-f32a
-    {	@rightPad (
-    '0' ) @lengthOf( BodyLength ) uint8 Foo ``,
-    //x
-    char[]
-    options1 @calculatedFrom(
-    ""it's"" ) ,@tag(255/// triple
-) uint64
-    Header @calculatedFrom( ""abc""
-) `
-`
-,}
-
-")).
-Eval vm_compute in ("<<<M1590>>>" ++ check (runes_of_ascii "packet matchKey {
-    @lengthOf(a1)
-    string_ T `" ++ [28040; 24687; 31867; 22411]%N ++ runes_of_ascii "`,//
-}
-
-packet body {
-    f32 _x,
-    packetx @lengthOf(options1) ``,
-    @leftPad(' ')
-    i16 crc,
-    @calculatedFrom(""" ++ [128512]%N ++ runes_of_ascii """)
-    Pad,
-}//")).
-Eval vm_compute in ("<<<M1753>>>" ++ check (runes_of_ascii "
-MetaData
-leftPad  {
-
-chars  MetaDataX
-
-    // c
-	, } packet
-
-repeatCount
-
-    {
-
-    char[
-
-    255 ] 
+255 // c11a
+  // c11b
+] // c12a
+  // c12b
 uint8x
-
-`" ++ [233]%N ++ runes_of_ascii "`  , } 
-MetaData
-    pack
-
-    {  As
-
-Foo 
-, }
+    // c13
+`" ++ [233]%N ++ runes_of_ascii "` // c14a
+  // c14b
+,
+    // c15
+} // c16a
+  // c16b
+MetaData // c17a
+  // c17b
+pack // c18
+{ // c19a
+  // c19b
+As // c20a
+  // c20b
+Foo
+    // c21
+,
+    // c22
+} // c23a
+  // c23b
 ")).
-Eval vm_compute in ("<<<M453>>>" ++ check (runes_of_ascii "packet uint8x
+Eval vm_compute in ("<<<M1515>>>" ++ check (runes_of_ascii "packet	a1
+
+{ char[]
+    charz @calculatedFrom( 
+    //x
+	""" ++ [28040; 24687]%N ++ runes_of_ascii """
+
+    )
+    , uint8x`crlf
+line`
+
+, uint64
+	T
+	`line1
+line2`,  @leftPad
+	(
+'0'
+    ) 
+
+    // a // b
+/// triple
+    @calculatedFrom(""abc""
+	)@tag(3
+)match	int// a // b
+
+as
+len
+{
+0
+: chars  ,
+[
+
+10 , 
+""a\\"" , 1	,
+0
+,10 , 0
+	] :
+
+body, 007 :
+// a // b
+  rootA 	 // a // b
+  ,},
+falsey
+options1,}
+")).
+Eval vm_compute in ("<<<M30>>>" ++ check (runes_of_ascii "packet
+repeatCount
+    {@calculatedFrom(	""abc"" ) zchar[
+    // @lengthOf(
+    0
+] // `tick` ""quote"" 'q'
+MetaDataX  `
+`	, string_
+@calculatedFrom( ""1""
+    ) ,	match string_
+    as msg_type{ [// a // b
+65535	,// a // b
+""a	b""
+    , 7
+    ,	255 ]:
+matchKey , 10 :
+    options1 , 3 :Logon
+    , } ,
+    // " ++ [27880; 37322]%N ++ runes_of_ascii "
+    packetx `a\` ,}
+")).
+Eval vm_compute in ("<<<M321>>>" ++ check (runes_of_ascii "
+options
+{ a1 = '\x00'
+As
+= ""{,}"" u8x
+=//x
+""a	b""
+    ; asx
+    = u64;
+o
+// @lengthOf(
+// c
+=0123456789 } packet Header
+{
+    //
+    @lengthOf(x // trailing space 
+)
+    // " ++ [27880; 37322]%N ++ runes_of_ascii "
+    repeat
+falsey { repeatCount
+    trueish
+`u8 x,` , } ,
+// `tick` ""quote"" 'q'
+// " ++ [128512]%N ++ runes_of_ascii " emoji
+zchar[
+65535 ] x
+    ,
+}")).
+Eval vm_compute in ("<<<M1320>>>" ++ check (runes_of_ascii "packet P1 {
+    u8 a,
+}
+packet P2 {
+    P1,
+}
+packet P3 {
+    P2,
+    P1,
+}
+packet P4 {
+    repeat P3,
+    P2,
+}
+root packet P5 {
+    P4,
+    P3,
+    P1,
+    u8 K,
+    match K as Body {
+        4 : P4,
+        3 : P3,
+        2 : P2,
+        1 : P1,
+    },
+}
+")).
+Eval vm_compute in ("<<<M1845>>>" ++ check (runes_of_ascii "// top
+MetaData uint8x {
+    // c2
+    char[] f32a `// not a comment`,
+    // c6
+    float32 roots,
+    // c9
+    char[7] u8x,
+    // c14
+    zchar[10] f32a,
+    // c19
+    u64 pack,
+    // c22
+    u16 pack,
+    // c25
+}
+// c26")).
+Eval vm_compute in ("<<<M207>>>" ++ check (runes_of_ascii "
+MetaData chars { } options
+{ As
+= true ;As // `tick` ""quote"" 'q'
+= false; stringy
+= true} packet repeatCount  {string
+    float@lengthOf(
+    matchKey )
+// packet A { u8 x, }
+//x
+`say ""hi""` ,
+}
+")).
+Eval vm_compute in ("<<<M62>>>" ++ check (runes_of_ascii "packet
+crc { @leftPad //	t
+( ) repeat
+charz float
+    ,} root packet
+options1 {
+@tag( 65535/// triple
+)packetx
+{ u128 , f32 /// triple
+a1 ,
+    } , }
+// trailing space 
+")).
+Eval vm_compute in ("<<<M421>>>" ++ check (runes_of_ascii "packet uint8x
 { match pack
-    as msg_type	{
+    as msg_type msg_type	{
     0123456789 :	float
 }
-@lengthOf(
+,
 } packet //	t
 a1
     { } options {packetx
     = '\x00'	; u128= ""a	b""  ; }
 ")).
-Eval vm_compute in ("<<<M518>>>" ++ check (runes_of_ascii "packet uint8x
-{ match pack
-    as msg_type	{
-    0123456789 :	float
-}
-,
-} packet //	t
+Eval vm_compute in ("<<<M1639>>>" ++ check (runes_of_ascii "
+
+  packet uint8x{  match  pack as
+
+    msg_type{ 
+0123456789
+: float }
+	,
+    }
+packet	//	t
 a1
-    { } options {packetx
-    = '\x00'	; u128 true ""a	b""  ; }
+{} options  {packetx
+
+=
+	char;
+u128
+	=""a	b""
+    ; 
+}
 ")).
 Eval vm_compute in ("<<<M542>>>" ++ check (runes_of_ascii "$ packet uint8x
 { match pack
@@ -910,29 +921,18 @@ a1
     { } options {packetx
     = '\x00'	; u128= ""a	b""  ; }
 ")).
-Eval vm_compute in ("<<<M437>>>" ++ check (runes_of_ascii "packet uint8x
+Eval vm_compute in ("<<<M442>>>" ++ check (runes_of_ascii "packet uint8x
 { match pack
     as msg_type	{
-    0123456789 float	:
-}
+    0123456789 :	}
+float
 ,
 } packet //	t
 a1
     { } options {packetx
     = '\x00'	; u128= ""a	b""  ; }
 ")).
-Eval vm_compute in ("<<<M468>>>" ++ check (runes_of_ascii "packet uint8x
-{ match pack
-    as msg_type	{
-    0123456789 :	float
-}
-,
-} packet //	t
-,
-    { } options {packetx
-    = '\x00'	; u128= ""a	b""  ; }
-")).
-Eval vm_compute in ("<<<M533>>>" ++ check (runes_of_ascii "packet uint8x
+Eval vm_compute in ("<<<M470>>>" ++ check (runes_of_ascii "packet uint8x
 { match pack
     as msg_type	{
     0123456789 :	float
@@ -940,8 +940,17 @@ Eval vm_compute in ("<<<M533>>>" ++ check (runes_of_ascii "packet uint8x
 ,
 } packet //	t
 a1
-    { } options {packetx
-    = '\x00'	; u128= ""a	b""  ;")).
+     } options {packetx
+    = '\x00'	; u128= ""a	b""  ; }
+")).
+Eval vm_compute in ("<<<M667>>>" ++ check (runes_of_ascii "// @lengthOf(
+packet i8i8 { u128 o char }
+options { MetaDataX = true;
+    BodyLength =""packet"" x_y_z= 007
+crc //x
+= ""abc"" ;
+    msg_type =
+i16 }")).
 Eval vm_compute in ("<<<M718>>>" ++ check (runes_of_ascii "// @lengthOf(
 packet i8i8 { u128 o , }
 options { MetaDataX = true;
@@ -950,245 +959,217 @@ crc //x
 = ""abc"" ;
     msg_type as
 i16 }")).
-Eval vm_compute in ("<<<M699>>>" ++ check (runes_of_ascii "// @lengthOf(
-packet i8i8 { a" ++ [769]%N ++ runes_of_ascii "b o , }
+Eval vm_compute in ("<<<M710>>>" ++ check (runes_of_ascii "// @lengthOf(
+packet i8i8 { u128 o , }
 options { MetaDataX = true;
     BodyLength =""packet"" x_y_z= 007
 crc //x
 = ""abc"" ;
-    msg_type =
+    msg_type 
 i16 }")).
-Eval vm_compute in ("<<<M1426>>>" ++ check (runes_of_ascii "packet stringy {
-}
-
-MetaData u8x {
-    zchar[65535] Pad,
-    stringy string_ `u8 x,`,
-    u8 lengthOf `
-        `,
-    char[255] pack,
+Eval vm_compute in ("<<<M1500>>>" ++ check (runes_of_ascii "packet A {
+    match k as n {
+        [
+            1, ""bb"", 007, ""d"", 5,
+            ""f"", 7, ""h""
+        ] : B,
+        2 : C,
+    },
 }")).
-Eval vm_compute in ("<<<M1403>>>" ++ check (runes_of_ascii "  MetaData
-leftPad{	chars
+Eval vm_compute in ("<<<M1814>>>" ++ check (runes_of_ascii "  packet B
+{ u8
+a,
 
-MetaDataX ,
-}packet
+    }
+root
+	packet
+P  { u8
+	K, 
+u8 L
 
-repeatCount{
+    @lengthOf(
+Body
 
-char[255  ]
-	uint8x
+    )
+,
+	match  K	as
 
-`" ++ [233]%N ++ runes_of_ascii "` ,
-
-}MetaData pack
-{	As
-
-Foo , // c
-  }
+Body	{1 : B
+	, }, }
 ")).
-Eval vm_compute in ("<<<M1142>>>" ++ check (runes_of_ascii "
+Eval vm_compute in ("<<<M1572>>>" ++ check (runes_of_ascii "packet A {
+    u16 len @lengthOf(body) `x
+        `,
+    u32 crc @calculatedFrom(""CRC32"") `x
+        `,
+    string body,
+}")).
+Eval vm_compute in ("<<<M1156>>>" ++ check (runes_of_ascii "MetaData leftPad { chars MetaDataX , }
 // c
-MetaData leftPad { chars MetaDataX , } packet repeatCount { char[ 255 ] uint8x `" ++ [233]%N ++ runes_of_ascii "` , } MetaData pack { As Foo , }")).
-Eval vm_compute in ("<<<M1168>>>" ++ check (runes_of_ascii "MetaData leftPad { chars MetaDataX , } packet repeatCount { char[ 255 ]
+packet repeatCount { char[ 255 ] uint8x `" ++ [233]%N ++ runes_of_ascii "` , } MetaData pack { As Foo , }")).
+Eval vm_compute in ("<<<M1188>>>" ++ check (runes_of_ascii "MetaData leftPad { chars MetaDataX , } packet repeatCount { char[ 255 ] uint8x `" ++ [233]%N ++ runes_of_ascii "` , } MetaData pack { As Foo ,
 // c
-uint8x `" ++ [233]%N ++ runes_of_ascii "` , } MetaData pack { As Foo , }")).
-Eval vm_compute in ("<<<M1655>>>" ++ check (runes_of_ascii "
+}")).
+Eval vm_compute in ("<<<M1844>>>" ++ check (runes_of_ascii "  packet A  {
 
-  packet
+    match k
+as
+n {
+[ 1 
+,
 
-A
+""bb""	,007
+	,
 
-    {match k as
-n
-    {
-    [
-	1
+""d"" ,
+    5,""f"",
+
+    7
+]: B  2:
+C
+}
 
     ,
-	""bb"",
-007  ,	""d"" , 5  , ""f"",7 ] : B 2
 
-    :C } , 
-}
-
-")).
-Eval vm_compute in ("<<<M1459>>>" ++ check (runes_of_ascii "packet
-A {
-match  k
-    as
-
-n
-    {
-[  ""a"", 
-22
-	,""c c""  ,
-    4
-
-    ,""e""  ,	66, ""g""]	: B
-
-2	:
-
-C }
-
-, }
-")).
-Eval vm_compute in ("<<<M1391>>>" ++ check (runes_of_ascii "options {
-    LittleEndian = true;
-}
-
-root packet P {
-    u16 a,
-    u32 Sum @calculatedFrom(""CRC32""),
-}")).
-Eval vm_compute in ("<<<M1248>>>" ++ check (runes_of_ascii "  options
-{LittleEndian 
-= true 
-; }
-
-    root  packet
-
-P {
-
-    repeat
-char
-cs
-
-, u8
-	x, }
+} ")).
+Eval vm_compute in ("<<<M142>>>" ++ check (runes_of_ascii "packet
+len
+    // " ++ [128512]%N ++ runes_of_ascii " emoji
+    { int64 a1	@lengthOf(x_y_z )	, }
+// c
+// trailing space 
+packet x_y_z { }
 
 ")).
-Eval vm_compute in ("<<<M871>>>" ++ check (runes_of_ascii "packet A {
+Eval vm_compute in ("<<<M896>>>" ++ check (runes_of_ascii "packet A {
   match k as n {
-    [""a"", 22, ""c c"", 4, ""e"", 66, ""g"", 8, ""i""] : B,
+    [1, ""bb"", 007, ""d"", 5, ""f"", 7, ""h"", 9, ""j"", 11] : B
     2 : C
   },
 }")).
-Eval vm_compute in ("<<<M1686>>>" ++ check (runes_of_ascii "packet body {
-    match Logon as _x {
-        4294967296 : _x,
-        """ ++ [28040; 24687]%N ++ runes_of_ascii """ : u128,
-    },
+Eval vm_compute in ("<<<M905>>>" ++ check (runes_of_ascii "packet A {
+  match k as n {
+    [1, 22, 007, 4, 5, 66, 7, 8, 9, 10, 11, 12] : B
+    2 : C
+  },
 }")).
-Eval vm_compute in ("<<<M1765>>>" ++ check (runes_of_ascii "
-//	t
-    	options
-    {
-
-roots= ""\n""	;
-
-o 
-
-    //
-	  =
-
-    '0'
-
-; tag
-    =
-true }
-")).
-Eval vm_compute in ("<<<M622>>>" ++ check (runes_of_ascii "
+Eval vm_compute in ("<<<M580>>>" ++ check (runes_of_ascii "
 packet
-    asx {match u128 as lengthOf
+    asx {match u128 char[ lengthOf
 {
 //	t
 // `tick` ""quote"" 'q'
 255 : x ,
-    } ,	")).
-Eval vm_compute in ("<<<M1275>>>" ++ check (runes_of_ascii "
-
-  options{ FixedStringPadFromLeft
-= 
-true 
-; }root 
-packet  P {char[
-    4 ]
-z,
-	}")).
-Eval vm_compute in ("<<<M690>>>" ++ check (runes_of_ascii "// @lengthOf(
-packet i8i8 { u128 o , }
-options { MetaDataX = true;
-    BodyLength")).
-Eval vm_compute in ("<<<M125>>>" ++ check (runes_of_ascii "//	t
-options {
-    roots  =  ""\n""	; o
-    //
-    = '0' ;
-tag
-    =true
-    }")).
-Eval vm_compute in ("<<<M1879>>>" ++ check (runes_of_ascii "packet A {
-    match k as n {
-        [1, 22] : B,
-        2 : C,
-    },
-}")).
-Eval vm_compute in ("<<<M797>>>" ++ check (runes_of_ascii "packet A {
-  match k as n {
-    [""a"", ""bb"", 007] : B,
-    2 : C
-  },
-}")).
-Eval vm_compute in ("<<<M628>>>" ++ check (runes_of_ascii "
+    } ,	}")).
+Eval vm_compute in ("<<<M636>>>" ++ check (runes_of_ascii "
 packet
     asx {match u128 as lengthOf
 {
 //	t
-// `tick` ""quote""")).
-Eval vm_compute in ("<<<M189>>>" ++ check (runes_of_ascii "
+// `ti/ck` ""quote"" 'q'
+255 : x ,
+    } ,	}")).
+Eval vm_compute in ("<<<M575>>>" ++ check (runes_of_ascii "
 packet
-i64_ { @tag( 0123456789 ) repeat u16 stringy
-,
-    }")).
-Eval vm_compute in ("<<<M1593>>>" ++ check (runes_of_ascii "
-root
-packet	P {	hdr  {u8
-a
-    ,
-
-    }	,
-	u8 x,  }
-
+    asx {match u64 as lengthOf
+{
+//	t
+// `tick` ""quote"" 'q'
+255 : x ,
+    } ,	}")).
+Eval vm_compute in ("<<<M572>>>" ++ check (runes_of_ascii "
+packet
+    asx {match  as lengthOf
+{
+//	t
+// `tick` ""quote"" 'q'
+255 : x ,
+    } ,	}")).
+Eval vm_compute in ("<<<M847>>>" ++ check (runes_of_ascii "packet A {
+  match k as n {
+    [1, 22, ""c c"", 4, 5, ""f"", 7] : B,
+    2 : C
+  },
+}")).
+Eval vm_compute in ("<<<M1591>>>" ++ check (runes_of_ascii "packet A {
+    match k as n {
+        [""a"", ""bb""] : B,
+        2 : C,
+    },
+}")).
+Eval vm_compute in ("<<<M67>>>" ++ check (runes_of_ascii "options { charz =""1"" _x= """ ++ [128512]%N ++ runes_of_ascii """ u = string ; stringy=
+""" ++ [28040; 24687]%N ++ runes_of_ascii """ }
+// @lengthOf(
 ")).
-Eval vm_compute in ("<<<M1202>>>" ++ check (runes_of_ascii "packet body
-// c
+Eval vm_compute in ("<<<M1796>>>" ++ check (runes_of_ascii "packet A {
+    match k as n {
+        [1] : B,
+        2 : C,
+    },
+}")).
+Eval vm_compute in ("<<<M780>>>" ++ check (runes_of_ascii "packet A {
+  match k as n {
+    [""a"", ""bb""] : B,
+    2 : C
+  },
+}")).
+Eval vm_compute in ("<<<M439>>>" ++ check (runes_of_ascii "packet uint8x
+{ match pack
+    as msg_type	{
+    0123456789")).
+Eval vm_compute in ("<<<M774>>>" ++ check (runes_of_ascii "packet A {
+  match k as n {
+    [1] : B
+    2 : C
+  },
+}")).
+Eval vm_compute in ("<<<M1201>>>" ++ check (runes_of_ascii "packet body // c
 { i32 f32a `{ , }` , } options { }")).
-Eval vm_compute in ("<<<M1243>>>" ++ check (runes_of_ascii "root packet P {
-    repeat char cs,
-    u8 x,
-}
+Eval vm_compute in ("<<<M1482>>>" ++ check (runes_of_ascii "
+packet
+A
+{	u8
+    x  `d" ++ [12288]%N ++ runes_of_ascii "`
+
+    , 	 // c" ++ [12288]%N ++ runes_of_ascii "
+  }
 ")).
-Eval vm_compute in ("<<<M724>>>" ++ check (runes_of_ascii "// @lengthOf(
-packet i8i8 { u128 o , }
-opt")).
-Eval vm_compute in ("<<<M1075>>>" ++ check (runes_of_ascii "MetaData M {
-}// c
-MetaData N {
-}// d")).
-Eval vm_compute in ("<<<M85>>>" ++ check (runes_of_ascii "options// c
-{MetaDataX =int16 }
-")).
-Eval vm_compute in ("<<<M1003>>>" ++ check (runes_of_ascii "packet A {
- u8 x `d" ++ [8192]%N ++ runes_of_ascii "`, // c" ++ [8192]%N ++ runes_of_ascii "
+Eval vm_compute in ("<<<M968>>>" ++ check (runes_of_ascii "options {
+    a = ""x\
+y"";
+    b = ""x\
+y""
 }")).
-Eval vm_compute in ("<<<M1065>>>" ++ check (runes_of_ascii "packet A {
-}// a// b// c
-")).
-Eval vm_compute in ("<<<M770>>>" ++ check (runes_of_ascii "EJYa-@ZpfaJe_ojrLyZC9M")).
-Eval vm_compute in ("<<<M211>>>" ++ check (runes_of_ascii "MetaData
-roots {
+Eval vm_compute in ("<<<M591>>>" ++ check (runes_of_ascii "
+packet
+    asx {match u128 as lengthOf")).
+Eval vm_compute in ("<<<M132>>>" ++ check (runes_of_ascii "options
+    { Foo = 0123456789
+; }")).
+Eval vm_compute in ("<<<M1543>>>" ++ check (runes_of_ascii "root packet P {
+    string s,
+}")).
+Eval vm_compute in ("<<<M923>>>" ++ check (runes_of_ascii "packet A {
+    u8 x `a
+b`,
+}")).
+Eval vm_compute in ("<<<M1898>>>" ++ check (runes_of_ascii "MetaData tag {
+    // c
+}")).
+Eval vm_compute in ("<<<M1106>>>" ++ check (runes_of_ascii "MetaData
+// c
+tag { }")).
+Eval vm_compute in ("<<<M1132>>>" ++ check (runes_of_ascii "MetaData u // c
+{ }")).
+Eval vm_compute in ("<<<M1026>>>" ++ check (runes_of_ascii "packet A {
 }
+// c" ++ [8287]%N)).
+Eval vm_compute in ("<<<M1009>>>" ++ check (runes_of_ascii "packet A {
+}// c" ++ [8232]%N)).
+Eval vm_compute in ("<<<M761>>>" ++ check (runes_of_ascii "{];z" ++ [65533]%N ++ runes_of_ascii """t" ++ [65533; 65533; 65533]%N ++ runes_of_ascii "XKU" ++ [65533; 2]%N)).
+Eval vm_compute in ("<<<M29>>>" ++ check (runes_of_ascii "// " ++ [27880; 37322]%N ++ runes_of_ascii "
 
 ")).
-Eval vm_compute in ("<<<M987>>>" ++ check (runes_of_ascii "// c" ++ [160]%N ++ runes_of_ascii "
-packet A {
-}")).
-Eval vm_compute in ("<<<M1232>>>" ++ check (runes_of_ascii "packet x { } // c
+Eval vm_compute in ("<<<M1808>>>" ++ check (runes_of_ascii "
+//
 ")).
-Eval vm_compute in ("<<<M1231>>>" ++ check (runes_of_ascii "packet x {
-// c
-}")).
-Eval vm_compute in ("<<<M1389>>>" ++ check (runes_of_ascii "packet A {
-}")).
-Eval vm_compute in ("<<<M1030>>>" ++ check (runes_of_ascii "// c" ++ [11]%N)).
